@@ -14,12 +14,13 @@ open QV.GB
 the measurement results): after ANY history, right after ANY execution — plain or with a circuit
 as initial state — and after any further reads of the gate-level result or of that execution's
 own result, `m.samples()` answers the rows of that last execution. -/
-theorem T14_gate_result_last_execution (c : Cfg) (hc : c.rebind = true) (h : List Op) (x : Op)
+theorem T14_gate_result_last_execution (c : Cfg) (hc : c.rebind = true) (hr : c.resets = true)
+    (h : List Op) (x : Op)
     (hx : x.isExec = true) (after : List Op)
     (hall : ∀ op ∈ after, op = .readGate ∨ op = .readRes (nexec h)) :
     (step c (stateAfter c {} (h ++ [x] ++ after)) .readGate).2 = .rows (nexec h) := by
   have hg := stateAfter_ginv c hc h {} (by simp [GInv])
-  have hfresh := exec_fresh c hc (stateAfter c {} h) x hx hg.1
+  have hfresh := exec_fresh c hc hr (stateAfter c {} h) x hx hg.1
   have hlen : (stateAfter c {} h).drawn.length = nexec h := by simpa using hg.2
   rw [hlen] at hfresh
   rw [stateAfter_append, stateAfter_append]
@@ -44,5 +45,12 @@ theorem T14_gate_result_first_binding_stale :
       = [.created 0, .created 1, .rows 0] ∧
     run { rebind := false, addRepoints := false } [.prep, .readGate] = [.created 0, .raises] := by
   decide
+
+/-- an execution path that does NOT reset the gates' shared results (seeded variant: the reset
+moved into `M.apply` but not into `M.apply_density_matrix`): once an earlier result has drawn its
+samples, the gate-level result keeps answering that earlier execution after a re-execution. -/
+theorem T14_gate_result_no_reset_stale :
+    run { rebind := true, resets := false } [.plain, .readRes 0, .plain, .readGate]
+      = [.created 0, .rows 0, .created 1, .rows 0] := by decide
 
 end QV.Props.C14
